@@ -207,6 +207,19 @@ CHECKS = {
         technique='symbolic execution of the real parser on symbolic token classes + concrete translation of solver-chosen representatives',
         engine='E2',
     ),
+    'C19': dict(
+        category='other',
+        text=('(1) The real Excel._get_suspicious_constructions on every text of length <= 5 (quick) / 6 over one representative of every character '
+              'class its two regexes distinguish (a A _ 1 ( ) . blank newline), enumerated by z3 and executed natively, against a three-valued oracle '
+              '(must list / must not list / unconstrained). (2) z3-enumerated placements: safety flag x sheet x column x row of a suspicious text and of '
+              'a second suspicious or innocent text; each case is a real .xlsx written by openpyxl and translated by the real Parser: exception type, '
+              'key = true title + true A1 address, fragments are parts of the text, nothing innocent listed, never raised with the check off.'),
+        design_ref='DESIGN.md section 6 / C19',
+        note=('the solver is the exhaustive enumerator of finite spaces here (E1 with a symbolic regex subject does not finish length 4 - measured); '
+              'longer texts, non-ASCII identifiers, more than two planted cells are outside the claim.'),
+        technique='solver-enumerated bounded exploration (z3 DFS) with native execution of the real code on real .xlsx files',
+        engine='E2',
+    ),
 }
 
 NOT_YET = {}   # filled below for every property without a check
